@@ -228,10 +228,11 @@ func singleScenario() *explore.Scenario {
 // DelayOnError: k-th consecutive failure => min(Initial*Mult^(k-1), Max)
 func delayScenario() *explore.Scenario {
 	return &explore.Scenario{Name: "delay-on-error", C: -1, DataOnly: true, Body: func() {
-		mult := []float64{1, 1.5, 2, 2.5}[vs.Choose(4, 0, "Multiplier")]
-		max := []time.Duration{3 * time.Second, time.Hour}[vs.Choose(2, 0, "MaxInterval")]
-		d := &middleware.DelayOnError{InitialInterval: time.Second, MaxInterval: max, Multiplier: mult}
-		n := 1 + vs.Choose(4, 0, "script length")
+		mult := []float64{1, 1.25, 1.5, 2, 2.5}[vs.Choose(5, 0, "Multiplier")]
+		initial := []time.Duration{time.Second, 100 * time.Millisecond, time.Millisecond, 3 * time.Microsecond}[vs.Choose(4, 0, "InitialInterval")]
+		max := []time.Duration{3 * initial, 1000 * initial}[vs.Choose(2, 0, "MaxInterval")]
+		d := &middleware.DelayOnError{InitialInterval: initial, MaxInterval: max, Multiplier: mult}
+		n := 1 + vs.Choose(5, 0, "script length")
 		msg := hx.Msg("m")
 		fail := false
 		h := d.Middleware(func(m *message.Message) ([]*message.Message, error) {
@@ -251,7 +252,7 @@ func delayScenario() *explore.Scenario {
 			if !fail {
 				script += "S"
 				if after != before {
-					vs.Fail("delay-success-untouched", "Multiplier=%v Max=%v script %s: a success changed the delay from %q to %q", mult, max, script, before, after)
+					vs.Fail("delay-success-untouched", "Initial=%v Multiplier=%v Max=%v script %s: a success changed the delay from %q to %q", initial, mult, max, script, before, after)
 				}
 				k = -1 << 20 // after a success the statement does not fix the next value
 				continue
@@ -259,7 +260,7 @@ func delayScenario() *explore.Scenario {
 			script += "F"
 			k++
 			if k == 1 {
-				want = time.Second
+				want = initial
 			} else if k > 1 {
 				want = time.Duration(float64(want) * mult)
 				if want > max {
@@ -269,11 +270,11 @@ func delayScenario() *explore.Scenario {
 			if k >= 1 {
 				got, err := time.ParseDuration(after)
 				if err != nil || got != want {
-					vs.Fail("delay-on-error-value", "Multiplier=%v Max=%v: after %d consecutive failures the delay is %q, expected %v", mult, max, k, after, want)
+					vs.Fail("delay-on-error-value", "Initial=%v Multiplier=%v Max=%v: after %d consecutive failures the delay is %q, expected %v", initial, mult, max, k, after, want)
 				}
 			}
 		}
-		vs.Note("mult=%v max=%v %s", mult, max, script)
+		vs.Note("initial=%v mult=%v max=%v %s", initial, mult, max, script)
 	}}
 }
 
